@@ -65,6 +65,7 @@ from typing import IO, TYPE_CHECKING
 from .errors import ChecksumMismatch
 from .file import GitFile
 from .objects import (
+    S_ISGITLINK,
     Blob,
     Commit,
     ObjectID,
@@ -922,7 +923,7 @@ def build_reachability_bitmap(
     commit_sha: ObjectID,
     sha_to_pos: dict[RawObjectID, int],
     object_store: "BaseObjectStore",
-) -> EWAHBitmap:
+) -> EWAHBitmap | None:
     """Build a reachability bitmap for a commit.
 
     The bitmap has a bit set for each object that is reachable from the commit.
@@ -934,7 +935,10 @@ def build_reachability_bitmap(
         object_store: Object store to traverse objects
 
     Returns:
-        EWAH bitmap with bits set for reachable objects
+        EWAH bitmap with bits set for reachable objects, or None if the
+        commit reaches an object that is not in the pack: a bit can only
+        stand for an object of the pack, so the bitmap would silently leave
+        that object out of every answer.
     """
     bitmap = EWAHBitmap()
 
@@ -951,8 +955,9 @@ def build_reachability_bitmap(
         # Add this object to the bitmap if it's in the pack
         # Convert hex SHA to binary for pack index lookup
         raw_sha = hex_to_sha(sha)
-        if raw_sha in sha_to_pos:
-            bitmap.add(sha_to_pos[raw_sha])
+        if raw_sha not in sha_to_pos:
+            return None
+        bitmap.add(sha_to_pos[raw_sha])
 
         # Get the object and traverse its references
         try:
@@ -963,9 +968,11 @@ def build_reachability_bitmap(
                 queue.append(obj.tree)
                 queue.extend(obj.parents)
             elif isinstance(obj, Tree):
-                # Tree object - add all entries
+                # Tree object - add all entries (a submodule's commit is
+                # not an object of this repository)
                 for item in obj.items():
-                    queue.append(item.sha)
+                    if not S_ISGITLINK(item.mode):
+                        queue.append(item.sha)
         except KeyError:
             # Object not in store, skip it
             continue
@@ -1156,7 +1163,8 @@ def generate_bitmap(
             progress(f"Building bitmap {i + 1}/{len(selected_commits)}")
 
         bitmap = build_reachability_bitmap(commit_sha, sha_to_pos, object_store)
-        commit_bitmaps.append((commit_sha, bitmap))
+        if bitmap is not None:
+            commit_bitmaps.append((commit_sha, bitmap))
 
     if progress:
         progress("Applying XOR compression")
